@@ -193,6 +193,8 @@ FIRST_RUN_MISSED = {  # seeded changes the checks did NOT catch when first confr
     "C15-22": "the reference took 'passes single-node validation' from validate.node alone; that a metadata element holds at most one child is now known to the reference independently",
     "C17-22": "after validating, only one question was asked per parent; the child is now inserted where suggested and the next question asked on the same Rule object",
     "C19-21": "contents were always strings; a numberOfRecords / size of 0 and an authentication of False go through the setter now (and the oracle reads a value as present when its text is non-empty)",
+    "C08-23": "comments were never followed by white space; in clean mode the document with comments followed by layout white space and the document without comments must import as the same tree",
+    "C08-24": "no qualified attribute with an empty value",
 }
 NOT_DETECTED_BY_DESIGN = {"C19-5", "C09-8"}
 ids = sys.argv[1:] or sorted(os.listdir(os.path.join(HERE, "seeded")))
